@@ -12,6 +12,7 @@ from . import fst
 from .asttypes import (
     ASTS_LEAF_BLOCK,
     ASTS_LEAF_FTSTR,
+    ASTS_LEAF_MOD,
     AST,
     ExceptHandler,
     Match,
@@ -41,6 +42,10 @@ _PATH_BODY2ORELSE   = [astfield('body', 0), astfield('body', 0), astfield('orels
 _PATH_BODYHANDLERS  = [astfield('body', 0), astfield('handlers', 0)]
 _PATH_BODY2HANDLERS = [astfield('body', 0), astfield('body', 0), astfield('handlers', 0)]
 _PATH_BODYCASES     = [astfield('body', 0), astfield('cases', 0)]
+
+
+class _ReparseMismatch(Exception):
+    """Minimal statementlike reparse cannot represent the change, need to reparse everything."""
 
 
 def _reparse_raw_base(
@@ -84,6 +89,22 @@ def _reparse_raw_base(
         copy = copy_root
 
     else:
+        a = copy_root.a
+
+        for field, idx in path:  # the part reparsed must still be exactly the one node at path, not zero and not several (e.g. source put introduced or removed a statement), otherwise the rest would be silently dropped
+            if (child := getattr(a, field, None)) is None:
+                break
+
+            if idx is not None:
+                if len(child) != 1:
+                    copy_root._unmake_fst_tree()
+
+                    raise _ReparseMismatch('reparse did not result in a single node at expected location')
+
+                child = child[idx]
+
+            a = child
+
         copy = copy_root.child_from_path(path)
 
         if not copy:
@@ -286,8 +307,26 @@ def _reparse_raw(self: fst.FST, code: Code | None, ln: int, col: int, end_ln: in
     """
 
     new_lines = _code_as_lines(code)
+    stmtlike_exc = None
 
-    if not _reparse_raw_stmtlike(self, new_lines, ln, col, end_ln, end_col):  # attempt to reparse only statement (or even only block header), if fails then no statement found above
+    try:
+        reparsed = _reparse_raw_stmtlike(self, new_lines, ln, col, end_ln, end_col)  # attempt to reparse only statement (or even only block header), if fails then no statement found above
+
+    except NotImplementedError:
+        raise
+
+    except (SyntaxError, NodeError, RuntimeError, _ReparseMismatch) as exc:  # minimal reparse failed (nothing modified yet), the change may still be valid for the whole source (statements added, removed, split or joined), the whole source parse decides
+        if (root := self.root).a.__class__ not in ASTS_LEAF_MOD:
+            if isinstance(exc, _ReparseMismatch):
+                raise SyntaxError(str(exc)) from None
+
+            raise
+
+        reparsed = False
+        stmtlike_exc = exc
+        self = root
+
+    if not reparsed:
         root = self.root
 
         if ((mode := root.a.__class__) is not Slice
@@ -298,8 +337,15 @@ def _reparse_raw(self: fst.FST, code: Code | None, ln: int, col: int, end_ln: in
         if self is not root and self.parent.a.__class__ in ASTS_LEAF_FTSTR:  # reparsing a direct child of one of these alone is problematic because they may create or destroy self-documenting debug Constant nodes
             self = self.parent
 
-        _reparse_raw_base(self, new_lines, ln, col, end_ln, end_col, root._lines[:],  # fallback to reparse all source
-                          None if self is root else root.child_path(self), True, mode)
+        try:
+            _reparse_raw_base(self, new_lines, ln, col, end_ln, end_col, root._lines[:],  # fallback to reparse all source
+                              None if self is root else root.child_path(self), True, mode)
+
+        except Exception:
+            if stmtlike_exc is None or isinstance(stmtlike_exc, _ReparseMismatch):
+                raise
+
+            raise stmtlike_exc from None  # the more local error is the more informative one
 
     if len(new_lines) == 1:
         return ln, col + len(new_lines[0])
